@@ -60,7 +60,7 @@ FOLLOWER, CANDIDATE, LEADER = 0, 1, 2
 LOOP_BUDGET = 3000
 # journal + dump restarts need `sendAppend`/`sendSnapshot` with an explicit commit value (after such a restart
 # the real commit index lags behind the applied index and that lower value travels in the messages)
-ENABLE_DUMP_RESTART = False
+ENABLE_DUMP_RESTART = True
 
 
 class Stop(Exception):
@@ -353,7 +353,8 @@ class Tracer(object):
                 es = [self.abs_entry(e) for e in msg["entries"]]
                 tag = {"k": "append", "t": msg["term"], "ldr": ia, "dst": ib, "prev": msg["prevLogIdx"] - 1,
                        "prevTerm": msg["prevLogTerm"], "es": es, "commit": msg["commit_index"] - 1}
-                self.act({"a": "sendAppend", "n": ia, "dst": ib, "prev": msg["prevLogIdx"] - 1, "k": len(es)})
+                self.act({"a": "sendAppend", "n": ia, "dst": ib, "prev": msg["prevLogIdx"] - 1, "k": len(es),
+                          "c": msg["commit_index"] - 1})
                 self.cov["send:batch-%s" % ("0" if not es else "1" if len(es) == 1 else "n")] += 1
                 if not self._register(msg, tag, up, alive):
                     self.lose(tag)
@@ -383,7 +384,8 @@ class Tracer(object):
             self.cov["send:chunks"] += len(buf)
             tag = {"k": "append", "t": msg["term"], "ldr": ia, "dst": ib, "prev": msg["prevLogIdx"] - 1,
                    "prevTerm": msg["prevLogTerm"], "es": [self.abs_entry(entry)], "commit": msg["commit_index"] - 1}
-            self.act({"a": "sendAppend", "n": ia, "dst": ib, "prev": msg["prevLogIdx"] - 1, "k": 1})
+            self.act({"a": "sendAppend", "n": ia, "dst": ib, "prev": msg["prevLogIdx"] - 1, "k": 1,
+                      "c": msg["commit_index"] - 1})
             if not self._register(msg, tag, up, alive):
                 self.lose(tag)
             return
@@ -413,13 +415,15 @@ class Tracer(object):
             return
         tag = {"k": "snapshot", "t": msg["term"], "ldr": ia, "dst": ib, "pos": k_idx - 1, "posTerm": k_term,
                "commit": msg["commit_index"] - 1}
-        self.act({"a": "sendSnapshot", "n": ia, "dst": ib, "k": k_idx - 1})
+        self.act({"a": "sendSnapshot", "n": ia, "dst": ib, "k": k_idx - 1, "c": msg["commit_index"] - 1})
         if not self._register(msg, tag, up, alive):
             self.lose(tag)
 
     # -- effects -> actions ------------------------------------------------------------------------
-    def _translate(self, v, ctx, commit_pos):
-        """Common part: the ordered effects of the handler that just ran at node v."""
+    def _translate(self, v, ctx, commit_pos, applied_idx=None):
+        """Common part: the ordered effects of the handler that just ran at node v.
+        commit_pos: abstract commit position (max(raftCommitIndex, raftLastApplied) - 1) before the handler,
+        applied_idx: raftLastApplied before the handler's applies (tick context)."""
         i = self.ix[v]
         expect_noop = False
         for ef in self.effects:
@@ -447,8 +451,8 @@ class Tracer(object):
                     continue
                 self.act({"a": "clientAppend", "n": i, "cmd": self.cid(ef[2])})
             elif k == "commit":
-                if ctx == "tick" and ef[2] - 1 != commit_pos:
-                    commit_pos = ef[2] - 1
+                if ctx == "tick" and max(ef[2], applied_idx or 0) - 1 > commit_pos:
+                    commit_pos = max(ef[2], applied_idx or 0) - 1
                     self.act({"a": "advanceCommit", "n": i, "i": commit_pos})
             elif k == "apply":
                 self.act({"a": "apply", "n": i})
@@ -479,12 +483,13 @@ class Tracer(object):
             v = ev[1]
             o = sim.objs[v]
             pre_term, pre_commit = o.raftCurrentTerm, max(o.raftCommitIndex, o.raftLastApplied) - 1
+            pre_applied = o.raftLastApplied
             sim.tick(v, ev[2])
             if o.raftCurrentTerm > pre_term:
                 dsts = [self.ix[e[2]] for e in self.effects
                         if e[0] == "send" and e[3]["type"] == "request_vote" and e[4]]
                 self.act({"a": "timeout", "n": self.ix[v], "dsts": dsts})
-            self._translate(v, "tick", pre_commit)
+            self._translate(v, "tick", pre_commit, pre_applied)
             if o._SyncObj__raftState == LEADER or any(e[0] == "state" and e[2] == LEADER for e in self.effects):
                 self._commit_rule_coverage(v, pre_commit)
         elif kind == "deliver":
@@ -562,7 +567,7 @@ class Tracer(object):
         if o.raftCurrentTerm < before_term:
             self._extra.append({"signature": "restart:term-moved-backwards",
                                 "what": "node %s had term %d before the kill and %d after the restart" % (v, before_term, o.raftCurrentTerm)})
-        self._translate(v, "tick", max(stored_commit, loaded) - 1)
+        self._translate(v, "tick", max(stored_commit, loaded) - 1, loaded)
 
     def _commit_rule_coverage(self, v, pre_commit):
         """Which side of the leader's commit rule this tick was on (evaluated on the real attributes)."""
